@@ -76,465 +76,27 @@ func checkC12(c *Ctx) (string, []string) {
 		target := c.Obj("internal/types", "Decoder.DecodeUint")
 		c.Check(len(callsIn(f, target)) > 0, "C12.truncation", funcKey(f)+" · delegates to DecodeUint", f.Pos(), "assembled bytes are decoded by DecodeUint", "does not delegate to DecodeUint")
 	}
-	c.Rule("C12.minimality", "in each of the five decoders every successful return of a value assembled from more than one input byte is reached only through the passing edge of a lower-bound comparison on that value: v >= 2^(7·l) for the l-byte form (bound = 1 << 7·l with l a plain variable) and v >= 2^56 for the 9-byte form", 10)
-	for _, ni := range natImpls {
-		f := c.Fn(ni.rel, ni.dec)
-		if f == nil {
-			continue
-		}
-		c12Minimality(c, f)
-	}
-	c12Encoders(c)
-	// what every decoder returns, bit by bit (replaces the former sibling comparison of two of them, which
-	// reported any rewrite of one copy)
-	c.Rule("C12.decoded-value", "for every first byte p (l = its leading one bits) and every input length in {1..l, l+1, l+2, 9, 10, 16}, each of the five decoders — followed with p and the length as constants and the payload bytes symbolic, data-dependent tests both ways — never indexes or slices outside the input, fails on every path when fewer than l+1 bytes are present, and on every successful return yields exactly: bit j of the value = bit j mod 8 of input byte 1 + ⌊j/8⌋ for j < 8l, the bits of p below its leading ones and the terminating zero at positions 8l.., zero above (the whole of bytes 1..8 for p = 0xFF), and l+1 as the number of bytes consumed where that is reported", 45)
-	for _, ni := range natImpls {
-		f := c.Fn(ni.rel, ni.dec)
-		if f == nil {
-			continue
-		}
-		c12DecodedValue(c, f)
-	}
-	return "Natural-number codec mechanisms decided statically over the five implementations (protocol codec, legacy serializer, PVM reader, telemetry, fuzz): every index/slice of the input in the decoders is proven in bounds by a linear-arithmetic argument from the dominating length comparisons (truncated input cannot be read past its end, and is rejected by those comparisons); every multi-byte success return is guarded by the minimality lower bound (2^(7l), 2^56 for the 0xFF form); the encoders select the 9-byte form exactly from 2^56 (explicit threshold, or a search loop over l = 0..7 with the range test 2^(7l) <= x < 2^(7(l+1))) and build the prefix as 256 - 2^(8-l) + floor(x / 2^(8l)).",
-		[]string{"go/ssa; linear bounds prover (dominating comparisons, rotated-loop phi facts, field-load versions, pure-getter inlining)", "not decided: bijection on all 2^64 values, agreement of the emitted remainder bytes (little-endian order) beyond the shared helper calls"}
-}
-
-// successReturn classifies a return of decoder f: (value, isSuccess).
-func c12Success(f *ssa.Function, r *ssa.Return) (ssa.Value, bool) {
-	res := retResults(r)
-	if len(res) < 2 {
-		return nil, false
-	}
-	last := res[len(res)-1]
-	switch {
-	case types.Identical(last.Type(), types.Universe.Lookup("error").Type()):
-		return res[0], !isErrorReturn(f, r)
-	default:
-		// (value, consumed int) or (value, consumed, ExitReason)
-		if len(res) == 3 {
-			k, ok := constInt(res[2])
-			return res[0], ok && k == 0
-		}
-		k, ok := constInt(res[1])
-		return res[0], !(ok && k == 0)
-	}
-}
-
-// byteOrigin: the value is a conversion/masking of a single input byte.
-func byteOrigin(v ssa.Value, d int) bool {
-	if d > 8 {
-		return false
-	}
-	if _, ok := v.(*ssa.Const); ok {
-		return true
-	}
-	if b, ok := v.Type().Underlying().(*types.Basic); ok && (b.Kind() == types.Uint8) {
-		return true
-	}
-	switch x := v.(type) {
-	case *ssa.Convert:
-		return byteOrigin(x.X, d+1)
-	case *ssa.ChangeType:
-		return byteOrigin(x.X, d+1)
-	}
-	return false
-}
-
-func c12Minimality(c *Ctx, f *ssa.Function) {
-	// A guard on the assembled value v is a minimality bound when, as a function of v (and of the byte count l, the
-	// only other non-constant leaf of the test), it rejects 2^(7l) − 1 and passes 2^(7l) for l = 1..7 — or, without
-	// another leaf, rejects 2^56 − 1 and passes 2^56. Decided by evaluating the test; its written form
-	// (v < 1<<(7l), v>>(7l) == 0, a negated ≥, operands exchanged …) does not matter.
-	type guard struct {
-		e    edge
-		kind string
-	}
-	var leavesOf func(v, stop ssa.Value, d int, out map[ssa.Value]bool, found *bool)
-	leavesOf = func(v, stop ssa.Value, d int, out map[ssa.Value]bool, found *bool) {
-		if v == stop {
-			*found = true
-			return
-		}
-		if _, isC := v.(*ssa.Const); isC {
-			return
-		}
-		if d > 8 {
-			out[v] = true
-			return
-		}
-		switch x := v.(type) {
-		case *ssa.BinOp:
-			leavesOf(x.X, stop, d+1, out, found)
-			leavesOf(x.Y, stop, d+1, out, found)
-		case *ssa.UnOp:
-			if x.Op == token.MUL || x.Op == token.ARROW {
-				out[v] = true
-				return
-			}
-			leavesOf(x.X, stop, d+1, out, found)
-		case *ssa.Convert:
-			leavesOf(x.X, stop, d+1, out, found)
-		case *ssa.ChangeType:
-			leavesOf(x.X, stop, d+1, out, found)
-		default:
-			out[v] = true
-		}
-	}
-	guardsOf := func(v ssa.Value) []guard {
-		var out []guard
-		for _, b := range f.Blocks {
-			ifi, ok := b.Instrs[len(b.Instrs)-1].(*ssa.If)
-			if !ok {
-				continue
-			}
-			leaves := map[ssa.Value]bool{}
-			found := false
-			leavesOf(ifi.Cond, v, 0, leaves, &found)
-			if !found || len(leaves) > 1 {
-				continue
-			}
-			var leaf ssa.Value
-			for l := range leaves {
-				leaf = l
-			}
-			eval := func(vv, lv int64) (int64, bool) {
-				env := intEnv{params: map[ssa.Value]int64{}, lens: map[ssa.Value]int64{}, unknown: map[ssa.Value]bool{}, cells: map[ssa.Value]int64{}}
-				env.opaque = func(y ssa.Value) (int64, bool) {
-					switch y {
-					case v:
-						return vv, true
-					case leaf:
-						return lv, leaf != nil
-					}
-					return 0, false
-				}
-				return evalInt(ifi.Cond, env, 0)
-			}
-			for succ := 0; succ < 2; succ++ {
-				passes := func(vv, lv int64) (bool, bool) {
-					k, ok := eval(vv, lv)
-					return (k != 0) == (succ == 0), ok
-				}
-				kind := ""
-				if leaf == nil {
-					lo, ok1 := passes(1<<56-1, 0)
-					hi, ok2 := passes(1<<56, 0)
-					top, ok3 := passes(-1, 0)
-					if ok1 && ok2 && ok3 && !lo && hi && top {
-						kind = "2^56"
-					}
-				} else {
-					all := true
-					for l := int64(1); l <= 7 && all; l++ {
-						lo, ok1 := passes(1<<(7*uint(l))-1, l)
-						hi, ok2 := passes(1<<(7*uint(l)), l)
-						top, ok3 := passes(1<<(8*uint(l))-1, l)
-						all = ok1 && ok2 && ok3 && !lo && hi && top
-					}
-					if all {
-						kind = "2^(7l)"
-					}
-				}
-				if kind == "" {
-					// some other monotone lower bound? (reported to explain a miss)
-					if leaf == nil {
-						if lo, ok1 := passes(0, 0); ok1 && !lo {
-							if hi, ok2 := passes(-1, 0); ok2 && hi {
-								out = append(out, guard{edge{b, succ}, "another bound: " + abbr(exprStr(ifi.Cond, exprOpts{}))})
-							}
-						}
-					} else if lo, ok1 := passes(0, 3); ok1 && !lo {
-						if hi, ok2 := passes(-1, 3); ok2 && hi {
-							out = append(out, guard{edge{b, succ}, "another bound: " + abbr(exprStr(ifi.Cond, exprOpts{}))})
-						}
-					}
-					continue
-				}
-				out = append(out, guard{edge{b, succ}, kind})
-			}
-		}
-		return out
-	}
-	// decide one carried value at one program point
-	decide := func(v ssa.Value, at ssa.Instruction) (ok bool, kinds []string) {
-		var good []edge
-		for _, g := range guardsOf(v) {
-			if guardedByPhi(f, at, []edge{g.e}) {
-				kinds = append(kinds, g.kind)
-			}
-			if g.kind == "2^56" || g.kind == "2^(7l)" {
-				good = append(good, g.e)
-			}
-		}
-		return guardedByPhi(f, at, good), kinds
-	}
-	n := 0
-	allInstrs(f, func(in ssa.Instruction) {
-		r, ok := in.(*ssa.Return)
-		if !ok {
-			return
-		}
-		v, succ := c12Success(f, r)
-		if !succ || v == nil || byteOrigin(v, 0) {
-			return
-		}
-		n++
-		key := fmt.Sprintf("%s · success return #%d", funcKey(f), n)
-		sv := stripConv(v)
-		guarded, kinds := decide(sv, r)
-		if !guarded {
-			if p, isPhi := sv.(*ssa.Phi); isPhi && p.Block() == r.Block() {
-				// a merged return: each incoming multi-byte value is guarded before it arrives
-				guarded = true
-				for k, e := range p.Edges {
-					if byteOrigin(e, 0) {
-						continue
-					}
-					pred := p.Block().Preds[k]
-					g, ks := decide(stripConv(e), pred.Instrs[len(pred.Instrs)-1])
-					kinds = append(kinds, ks...)
-					if !g {
-						guarded = false
-					}
-				}
-			}
-		}
-		if !guarded {
-			// a value carried to the return through phis (a search loop that keeps the accepted candidate): some
-			// multi-byte incoming value is guarded on every path to the return
-			seen := map[ssa.Value]bool{}
-			var walk func(x ssa.Value, d int)
-			walk = func(x ssa.Value, d int) {
-				x = stripConv(x)
-				if seen[x] || d > 3 || guarded {
-					return
-				}
-				seen[x] = true
-				if p, isPhi := x.(*ssa.Phi); isPhi {
-					for _, e := range p.Edges {
-						walk(e, d+1)
-					}
-					return
-				}
-				if _, isC := x.(*ssa.Const); isC || byteOrigin(x, 0) {
-					return
-				}
-				g, ks := decide(x, r)
-				kinds = append(kinds, ks...)
-				if g {
-					guarded = true
-				}
-			}
-			if p, isPhi := sv.(*ssa.Phi); isPhi && p.Block() != r.Block() {
-				walk(sv, 0)
-			}
-		}
-		if guarded {
-			c.OK("C12.minimality", key, r.Pos(), "guarded by lower bound %v (threshold evaluated: rejects 2^(7l) − 1, passes 2^(7l), l = 1..7; 2^56 for the 9-byte form)", uniqSorted(kinds))
-		} else if len(kinds) > 0 {
-			c.Bad("C12.minimality", key, r.Pos(), "the only lower bounds guarding this multi-byte result are %v, not 2^(7l) / 2^56: over-long encodings are accepted", uniqSorted(kinds))
-		} else {
-			c.Bad("C12.minimality", key, r.Pos(), "a value assembled from several input bytes (%s) is returned without any lower-bound check: non-minimal encodings are accepted", abbr(exprStr(v, shapeOpts)))
-		}
-	})
-}
-
-// c12Encoders: threshold/search-range/prefix agreement of the four encoders.
-func c12Encoders(c *Ctx) {
-	c.Rule("C12.encoders", "each encoder emits the 9-byte form exactly for x >= 2^56: either an explicit comparison with 1<<56, or a search loop whose index runs over exactly 0..7 with the class test 2^(7l) <= x < 2^(7(l+1)); the prefix byte is 256 - 2^(8-l) + x / 2^(8l)", 8)
+	c.Rule("C12.encoded-bytes", "for x = 0 and for every position t = 0..63 of the highest set bit of x (bits above t zero, bit t one, bits below symbolic), each of the four encoders — followed with t as the constant of the partition, tests on x decided by the interval of the pattern — never fails or panics and returns exactly the bytes the encoding defines: l = ⌊t/7⌋ for t < 56, l+1 bytes, first byte = l leading ones, a zero, then bits 8l.. of x; byte k = bits 8(k−1)..8k−1 of x; for t ≥ 56 the byte 0xFF followed by the eight little-endian bytes of x", 40)
 	for _, ni := range natImpls {
 		if ni.enc == "" {
 			continue
 		}
-		f := c.Fn(ni.rel, ni.enc)
+		if f := c.Fn(ni.rel, ni.enc); f != nil {
+			c12EncodedBytes(c, f)
+		}
+	}
+	// what every decoder returns, bit by bit (replaces the former sibling comparison of two of them, which
+	// reported any rewrite of one copy)
+	c.Rule("C12.decoded-value", "for every first byte p (l = its leading one bits) and every input length in {1..l, l+1, l+2, 9, 10, 16}, each of the five decoders — followed with p and the length as constants and the payload bytes symbolic (where acceptance depends on the payload, i.e. the prefix carries no value bits, additionally partitioned by the position of the highest set payload bit) — never indexes or slices outside the input; fails on every path when fewer than l+1 bytes are present or the value is below 2^(7l) (2^56 for the 9-byte form), succeeds on every path otherwise (the accepted set is exactly the set of canonical encodings); and on every successful return yields exactly: bit j of the value = bit j mod 8 of input byte 1 + ⌊j/8⌋ for j < 8l, the bits of p below its leading ones and the terminating zero at positions 8l.., zero above (the whole of bytes 1..8 for p = 0xFF), and l+1 as the number of bytes consumed where that is reported", 45)
+	for _, ni := range natImpls {
+		f := c.Fn(ni.rel, ni.dec)
 		if f == nil {
 			continue
 		}
-		key := funcKey(f)
-		// explicit threshold?
-		explicit := false
-		for _, b := range f.Blocks {
-			if ifi, ok := b.Instrs[len(b.Instrs)-1].(*ssa.If); ok {
-				if bo, ok := ifi.Cond.(*ssa.BinOp); ok && (bo.Op == token.GEQ || bo.Op == token.LSS) {
-					if k, ok := constInt(bo.Y); ok && uint64(k) == uint64(1)<<56 {
-						if _, isParam := stripConv(bo.X).(*ssa.Parameter); isParam {
-							explicit = true
-						}
-					}
-				}
-			}
-		}
-		// search loop: phi index init 0, step +1, continue condition i <= 7 / i < 8
-		loopMax := int64(-1)
-		var classPhi *ssa.Phi
-		allInstrs(f, func(in ssa.Instruction) {
-			p, ok := in.(*ssa.Phi)
-			if !ok || !isIntegerT(p.Type()) || len(p.Edges) != 2 {
-				return
-			}
-			init, okI := constInt(p.Edges[0])
-			if !okI || init != 0 {
-				return
-			}
-			step, ok := stripConv(p.Edges[1]).(*ssa.BinOp)
-			if !ok || step.Op != token.ADD || stripConv(step.X) != ssa.Value(p) {
-				return
-			}
-			if k, ok := constInt(step.Y); !ok || k != 1 {
-				return
-			}
-			// the loop header condition on p; the class loop is the one whose body tests lower <= x
-			for _, ref := range *p.Referrers() {
-				bo, ok := ref.(*ssa.BinOp)
-				if !ok || stripConv(bo.X) != ssa.Value(p) {
-					continue
-				}
-				k, ok := constInt(bo.Y)
-				if !ok {
-					continue
-				}
-				usedInIf := false
-				for _, r2 := range *bo.Referrers() {
-					if _, ok := r2.(*ssa.If); ok {
-						usedInIf = true
-					}
-				}
-				if !usedInIf {
-					continue
-				}
-				max := int64(-1)
-				if bo.Op == token.LEQ {
-					max = k
-				} else if bo.Op == token.LSS {
-					max = k - 1
-				}
-				// is this the class-search loop? its index feeds a shift amount 7*index
-				feeds7 := false
-				var walk func(v ssa.Value, d int)
-				walk = func(v ssa.Value, d int) {
-					if d > 4 || feeds7 {
-						return
-					}
-					for _, r3 := range *v.Referrers() {
-						if m, ok := r3.(*ssa.BinOp); ok {
-							if m.Op == token.MUL {
-								if k7, ok := constInt(m.X); ok && k7 == 7 {
-									feeds7 = true
-								}
-								if k7, ok := constInt(m.Y); ok && k7 == 7 {
-									feeds7 = true
-								}
-							}
-							if m.Op == token.ADD {
-								walk(m, d+1)
-							}
-						}
-						if cv, ok := r3.(*ssa.Convert); ok {
-							walk(cv, d+1)
-						}
-					}
-				}
-				walk(p, 0)
-				if feeds7 && max >= 0 {
-					loopMax = max
-					classPhi = p
-				}
-			}
-		})
-		switch {
-		case explicit:
-			c.OK("C12.encoders", key+" · 9-byte threshold", f.Pos(), "explicit comparison of the value with 1<<56")
-		case loopMax == 7:
-			c.OK("C12.encoders", key+" · 9-byte threshold", classPhi.Pos(), "class search runs l = 0..7, so the fallback is taken exactly for x >= 2^56")
-		case loopMax >= 0:
-			c.Bad("C12.encoders", key+" · 9-byte threshold", classPhi.Pos(), "class search runs l = 0..%d instead of 0..7: values in [2^%d, 2^56) fall through to the 9-byte form (non-minimal, differs from the other encoders)", loopMax, 7*(loopMax+1))
-		default:
-			c.Unknown("C12.encoders", key+" · 9-byte threshold", f.Pos(), "neither an explicit 2^56 comparison nor a class-search loop was recognised")
-		}
-		// prefix formula: some value converted to byte whose shape is 256 - (1 << (8 - l)) + x / (1 << (8*l))
-		found := false
-		var shapes []string
-		allInstrs(f, func(in ssa.Instruction) {
-			cv, ok := in.(*ssa.Convert)
-			if !ok {
-				return
-			}
-			if b, ok := cv.Type().Underlying().(*types.Basic); !ok || b.Kind() != types.Uint8 {
-				return
-			}
-			s := exprStr(cv.X, exprOpts{})
-			if strings.Contains(s, "<<") && strings.Contains(s, "/") {
-				shapes = append(shapes, s)
-				if prefixShapeOK(cv.X) {
-					found = true
-				}
-			}
-		})
-		if found {
-			c.OK("C12.encoders", key+" · prefix byte", f.Pos(), "prefix = 256 - 2^(8-l) + x / 2^(8l)")
-		} else {
-			c.Bad("C12.encoders", key+" · prefix byte", f.Pos(), "no byte-converted expression of the form 256 - (1 << (8-l)) + x/(1 << (8l)) found; candidates: %v", shapes)
-		}
+		c12DecodedValue(c, f, "C12.decoded-value")
 	}
-}
-
-// prefixShapeOK matches  (256 - (1 << (8 - l))) + (x / (1 << (8*l)))  up to
-// commutativity, conversions and the spelling 1<<8 for 256.
-func prefixShapeOK(v ssa.Value) bool {
-	v = stripConv(v)
-	add, ok := v.(*ssa.BinOp)
-	if !ok || add.Op != token.ADD {
-		return false
-	}
-	isBase := func(a ssa.Value) bool {
-		s, ok := stripConv(a).(*ssa.BinOp)
-		if !ok || s.Op != token.SUB {
-			return false
-		}
-		k, ok := constInt(s.X)
-		if !ok || k != 256 {
-			return false
-		}
-		sh, ok := stripConv(s.Y).(*ssa.BinOp)
-		if !ok || sh.Op != token.SHL {
-			return false
-		}
-		if one, ok := constInt(sh.X); !ok || one != 1 {
-			return false
-		}
-		d, ok := stripConv(sh.Y).(*ssa.BinOp)
-		if !ok || d.Op != token.SUB {
-			return false
-		}
-		k8, ok := constInt(d.X)
-		return ok && k8 == 8
-	}
-	isFloor := func(a ssa.Value) bool {
-		a = stripConv(a)
-		q, ok := a.(*ssa.BinOp)
-		if !ok || q.Op != token.QUO {
-			return false
-		}
-		den := stripConv(q.Y)
-		if local := resolveLocal(den); local != nil {
-			den = local
-		}
-		sh, ok := den.(*ssa.BinOp)
-		if !ok || sh.Op != token.SHL {
-			return false
-		}
-		if one, ok := constInt(sh.X); !ok || one != 1 {
-			return false
-		}
-		m, ok := stripConv(sh.Y).(*ssa.BinOp)
-		if !ok || m.Op != token.MUL {
-			return false
-		}
-		k1, ok1 := constInt(m.X)
-		k2, ok2 := constInt(m.Y)
-		return (ok1 && k1 == 8) || (ok2 && k2 == 8)
-	}
-	return (isBase(add.X) && isFloor(add.Y)) || (isBase(add.Y) && isFloor(add.X))
+	return "Natural-number codec mechanisms decided statically over the five implementations (protocol codec, legacy serializer, PVM reader, telemetry, fuzz): every index/slice of the input in the decoders is proven in bounds by a linear-arithmetic argument from the dominating length comparisons (truncated input cannot be read past its end, and is rejected by those comparisons); every multi-byte success return is guarded by the minimality lower bound (2^(7l), 2^56 for the 0xFF form); the encoders select the 9-byte form exactly from 2^56 (explicit threshold, or a search loop over l = 0..7 with the range test 2^(7l) <= x < 2^(7(l+1))) and build the prefix as 256 - 2^(8-l) + floor(x / 2^(8l)).",
+		[]string{"go/ssa; linear bounds prover (dominating comparisons, rotated-loop phi facts, field-load versions, pure-getter inlining)", "not decided: bijection on all 2^64 values, agreement of the emitted remainder bytes (little-endian order) beyond the shared helper calls"}
 }
 
 func dumpConds(f *ssa.Function) {
@@ -543,23 +105,12 @@ func dumpConds(f *ssa.Function) {
 	}
 }
 
-func diffStrings(a, b []string) []string {
-	in := map[string]bool{}
-	for _, x := range b {
-		in[x] = true
-	}
-	var out []string
-	for _, x := range a {
-		if !in[x] {
-			out = append(out, x)
-		}
-	}
-	return out
-}
-
 // c12DecodedValue: bit-provenance abstract interpretation of one decoder over
-// the partitions (first byte, input length); see bitfield.go.
-func c12DecodedValue(c *Ctx, f *ssa.Function) {
+// the partitions (first byte, input length, position of the highest set
+// payload bit where acceptance depends on it); see bitfield.go. It decides
+// the accepted set exactly (truncated and non-minimal strings fail on every
+// path, canonical ones succeed on every path) and the value returned.
+func c12DecodedValue(c *Ctx, f *ssa.Function, rule string) {
 	// where the input enters: a []byte parameter, or a receiver object with a []byte field and an integer position
 	dataParam, recvParam := -1, -1
 	var dataField, posField = -1, -1
@@ -585,7 +136,7 @@ func c12DecodedValue(c *Ctx, f *ssa.Function) {
 		}
 	}
 	if dataParam < 0 && recvParam < 0 {
-		c.Unknown("C12.decoded-value", funcKey(f), f.Pos(), "cannot tell where the input bytes enter this decoder")
+		c.Unknown(rule, funcKey(f), f.Pos(), "cannot tell where the input bytes enter this decoder")
 		return
 	}
 	res := f.Signature.Results()
@@ -621,7 +172,7 @@ func c12DecodedValue(c *Ctx, f *ssa.Function) {
 	for l := 0; l <= 8; l++ {
 		key := fmt.Sprintf("%s · l=%d", funcKey(f), l)
 		bad, undecided := "", ""
-		parts, successes := 0, 0
+		parts, successes, rejections := 0, 0, 0
 		lo, hi := 0, 0 // prefixes with exactly l leading ones
 		switch {
 		case l == 8:
@@ -635,90 +186,144 @@ func c12DecodedValue(c *Ctx, f *ssa.Function) {
 			lens[n] = true
 		}
 		for p := lo; p <= hi && bad == "" && undecided == ""; p++ {
+			low := 0
+			if l < 8 {
+				low = p & (0xFF >> uint(l+1))
+			}
 			for n := range lens {
-				if bad != "" || undecided != "" {
-					break
-				}
-				parts++
-				arr := &bfArray{el: make([]bfInt, n)}
-				arr.el[0] = bfConst(uint64(p), 8, false)
-				for i := 1; i < n; i++ {
-					v := bfInt{w: 8}
-					for j := 0; j < 8; j++ {
-						v.b[j] = bfBit{k: 2, i: uint16(8*i + j)}
+				// sub-partitions: the position t of the highest set payload bit, where acceptance depends on the payload
+				// (the prefix carries no value bits); tops = [-2] means "payload wholly symbolic"
+				tops := []int{-2}
+				if n >= l+1 && l >= 1 && low == 0 {
+					tops = tops[:0]
+					for t := -1; t < 8*l; t++ {
+						tops = append(tops, t)
 					}
-					arr.el[i] = v
 				}
-				m := &bfMachine{maxSteps: 20000}
-				heap := bfHeap{}
-				args := make([]any, len(f.Params))
-				for i := range args {
-					args[i] = bfUnknown{"parameter"}
-				}
-				if dataParam >= 0 {
-					args[dataParam] = bfSlice{root: arr, lo: 0, hi: n}
-				} else {
-					m.nextObj++
-					heap[m.nextObj] = map[int]any{dataField: bfSlice{root: arr, lo: 0, hi: n}, posField: bfConst(0, 64, true)}
-					args[recvParam] = bfPtr{obj: m.nextObj, field: -1}
-				}
-				where := fmt.Sprintf("first byte 0x%02X, %d input byte(s)", p, n)
-				for _, o := range m.call(f, args, heap, 0) {
-					if o.fault != "" {
-						if o.panics {
-							bad = where + ": " + o.fault + " (Go runtime panic on untrusted input)"
-						} else {
-							undecided = where + ": " + o.fault
-						}
+				for _, t := range tops {
+					if bad != "" || undecided != "" {
 						break
 					}
-					ok, decided := success(o.results)
-					if !decided {
-						undecided = where + ": the success status of a return is not determined"
-						break
-					}
-					if !ok {
-						continue
-					}
-					if n < l+1 {
-						bad = where + ": a truncated encoding is accepted"
-						break
-					}
-					successes++
-					v, isInt := o.results[0].(bfInt)
-					if !isInt {
-						undecided = where + ": the decoded value is not an integer the domain follows"
-						break
-					}
-					for j := 0; j < 64 && bad == ""; j++ {
-						var want bfBit
+					parts++
+					payload := func(j int) bfBit { // bit j of the l-byte payload
 						switch {
-						case j < 8*l:
-							want = bfBit{k: 2, i: uint16(8*(1+j/8) + j%8)}
-						case l < 8 && j < 8*l+(7-l):
-							if (p&(0xFF>>uint(l+1)))>>uint(j-8*l)&1 == 1 {
-								want = bfBit{k: 1}
+						case t == -2 || j < t:
+							return bfBit{k: 2, i: uint16(8*(1+j/8) + j%8)}
+						case j == t:
+							return bfBit{k: 1}
+						}
+						return bfBit{}
+					}
+					m := &bfMachine{maxSteps: 20000}
+					heap := bfHeap{}
+					arr := m.newArray(heap, n)
+					heap[arr][0] = bfConst(uint64(p), 8, false)
+					for i := 1; i < n; i++ {
+						v := bfInt{w: 8}
+						for j := 0; j < 8; j++ {
+							if i <= l {
+								v.b[j] = payload(8*(i-1) + j)
+							} else {
+								v.b[j] = bfBit{k: 2, i: uint16(8*i + j)}
 							}
 						}
-						var got bfBit
-						if j < int(v.w) {
-							got = v.b[j]
-						}
-						if got != want {
-							bad = fmt.Sprintf("%s: bit %d of the decoded value is %s, the encoding defines %s (value %s)", where, j, bfBitString(got), bfBitString(want), v)
+						heap[arr][i] = v
+					}
+					args := make([]any, len(f.Params))
+					for i := range args {
+						args[i] = bfUnknown{"parameter"}
+					}
+					recvObj := 0
+					if dataParam >= 0 {
+						args[dataParam] = bfSlice{obj: arr, lo: 0, hi: n, cp: n}
+					} else {
+						m.nextObj++
+						recvObj = m.nextObj
+						heap[recvObj] = map[int]any{dataField: bfSlice{obj: arr, lo: 0, hi: n, cp: n}, posField: bfConst(0, 64, true)}
+						args[recvParam] = bfPtr{obj: recvObj, field: -1}
+					}
+					where := fmt.Sprintf("first byte 0x%02X, %d input byte(s)", p, n)
+					// what the encoding says about this partition
+					mustFail, mustSucceed := n < l+1, false
+					if !mustFail {
+						switch {
+						case l == 0 || low > 0:
+							mustSucceed = true
+						case t == -2:
+						case l == 8 && t < 56 || l < 8 && t < 7*l:
+							mustFail = true
+							where += fmt.Sprintf(", payload below 2^%d", t+1)
+						default:
+							mustSucceed = true
+							where += fmt.Sprintf(", highest payload bit %d", t)
 						}
 					}
-					if bad == "" && usedIdx >= 0 {
-						u, isInt := o.results[usedIdx].(bfInt)
-						k, conc := u.concrete()
-						if !isInt || !conc || int(k) != l+1 {
-							bad = fmt.Sprintf("%s: %v bytes reported consumed, the encoding has %d", where, o.results[usedIdx], l+1)
+					for _, o := range m.call(f, args, heap, 0) {
+						if o.fault != "" {
+							if o.panics {
+								bad = where + ": " + o.fault + " (Go runtime panic on untrusted input)"
+							} else {
+								undecided = where + ": " + o.fault
+							}
+							break
 						}
-					}
-					if bad == "" && recvParam >= 0 {
-						if pos, isInt := o.heap[1][posField].(bfInt); isInt {
-							if k, conc := pos.concrete(); !conc || int(k) != l+1 {
-								bad = fmt.Sprintf("%s: the reader advanced to %v, the encoding has %d bytes", where, pos, l+1)
+						ok, decided := success(o.results)
+						if !decided {
+							undecided = where + ": the success status of a return is not determined"
+							break
+						}
+						if !ok {
+							if mustSucceed {
+								bad = where + ": a canonical encoding is rejected"
+								break
+							}
+							rejections++
+							continue
+						}
+						if mustFail {
+							if n < l+1 {
+								bad = where + ": a truncated encoding is accepted"
+							} else {
+								bad = where + ": a non-minimal encoding is accepted"
+							}
+							break
+						}
+						successes++
+						v, isInt := o.results[0].(bfInt)
+						if !isInt {
+							undecided = where + ": the decoded value is not an integer the domain follows"
+							break
+						}
+						for j := 0; j < 64 && bad == ""; j++ {
+							var want bfBit
+							switch {
+							case j < 8*l:
+								want = payload(j)
+							case l < 8 && j < 8*l+(7-l):
+								if low>>uint(j-8*l)&1 == 1 {
+									want = bfBit{k: 1}
+								}
+							}
+							var got bfBit
+							if j < int(v.w) {
+								got = v.b[j]
+							}
+							if got != want {
+								bad = fmt.Sprintf("%s: bit %d of the decoded value is %s, the encoding defines %s (value %s)", where, j, bfBitString(got), bfBitString(want), v)
+							}
+						}
+						if bad == "" && usedIdx >= 0 {
+							u, isInt := o.results[usedIdx].(bfInt)
+							k, conc := u.concrete()
+							if !isInt || !conc || int(k) != l+1 {
+								bad = fmt.Sprintf("%s: %v bytes reported consumed, the encoding has %d", where, o.results[usedIdx], l+1)
+							}
+						}
+						if bad == "" && recvParam >= 0 {
+							if pos, isInt := o.heap[recvObj][posField].(bfInt); isInt {
+								if k, conc := pos.concrete(); !conc || int(k) != l+1 {
+									bad = fmt.Sprintf("%s: the reader advanced to %v, the encoding has %d bytes", where, pos, l+1)
+								}
 							}
 						}
 					}
@@ -727,13 +332,13 @@ func c12DecodedValue(c *Ctx, f *ssa.Function) {
 		}
 		switch {
 		case bad != "":
-			c.Bad("C12.decoded-value", key, f.Pos(), "%s", bad)
+			c.Bad(rule, key, f.Pos(), "%s", bad)
 		case undecided != "":
-			c.Unknown("C12.decoded-value", key, f.Pos(), "%s", undecided)
+			c.Unknown(rule, key, f.Pos(), "%s", undecided)
 		case successes == 0:
-			c.Bad("C12.decoded-value", key, f.Pos(), "no input with %d leading one bits in its first byte is ever decoded successfully", l)
+			c.Bad(rule, key, f.Pos(), "no input with %d leading one bits in its first byte is ever decoded successfully", l)
 		default:
-			c.OK("C12.decoded-value", key, f.Pos(), "%d partitions (first byte × length) followed: in range, truncated input rejected, %d successful returns with the defined bit provenance", parts, successes)
+			c.OK(rule, key, f.Pos(), "%d partitions followed: in range; truncated and non-minimal strings fail on every path (%d failing returns), canonical ones succeed on every path (%d returns) with the defined bit provenance", parts, rejections, successes)
 		}
 	}
 }
@@ -748,4 +353,158 @@ func bfBitString(b bfBit) string {
 		return fmt.Sprintf("bit %d of input byte %d", b.i%8, b.i/8)
 	}
 	return "not determined"
+}
+
+// c12EncodedBytes: bit-provenance abstract interpretation of one encoder over
+// the partitions "position of the highest set bit of x".
+func c12EncodedBytes(c *Ctx, f *ssa.Function) {
+	xParam := -1
+	for i, p := range f.Params {
+		if w, s, ok := bfWidth(p.Type()); ok && w == 64 && !s {
+			xParam = i
+		}
+	}
+	if xParam < 0 {
+		c.Unknown("C12.encoded-bytes", funcKey(f), f.Pos(), "no 64-bit unsigned parameter")
+		return
+	}
+	res := f.Signature.Results()
+	errT := types.Universe.Lookup("error").Type()
+	xbit := func(t, j int) bfBit {
+		switch {
+		case j < t:
+			return bfBit{k: 2, i: uint16(j)}
+		case j == t:
+			return bfBit{k: 1}
+		}
+		return bfBit{}
+	}
+	type class struct {
+		name string
+		ts   []int
+	}
+	classes := []class{{"x=0", []int{-1}}}
+	for l := 0; l <= 7; l++ {
+		var ts []int
+		for t := 7 * l; t < 7*l+7; t++ {
+			ts = append(ts, t)
+		}
+		classes = append(classes, class{fmt.Sprintf("l=%d", l), ts})
+	}
+	classes = append(classes, class{"l=8", []int{56, 57, 58, 59, 60, 61, 62, 63}})
+	for _, cl := range classes {
+		key := funcKey(f) + " · " + cl.name
+		bad, undecided := "", ""
+		rets := 0
+		for _, t := range cl.ts {
+			if bad != "" || undecided != "" {
+				break
+			}
+			x := bfInt{w: 64}
+			for j := 0; j < 64; j++ {
+				x.b[j] = xbit(t, j)
+			}
+			where := fmt.Sprintf("highest set bit %d", t)
+			if t < 0 {
+				where = "x = 0"
+			}
+			// expected bytes
+			var want [][8]bfBit
+			switch {
+			case t < 0:
+				want = append(want, [8]bfBit{})
+			case t >= 56:
+				var b0 [8]bfBit
+				for b := range b0 {
+					b0[b] = bfBit{k: 1}
+				}
+				want = append(want, b0)
+				for k := 1; k <= 8; k++ {
+					var bk [8]bfBit
+					for b := range bk {
+						bk[b] = xbit(t, 8*(k-1)+b)
+					}
+					want = append(want, bk)
+				}
+			default:
+				l := t / 7
+				var b0 [8]bfBit
+				for b := 0; b < 8; b++ {
+					switch {
+					case b >= 8-l:
+						b0[b] = bfBit{k: 1}
+					case b < 7-l:
+						b0[b] = xbit(t, 8*l+b)
+					}
+				}
+				want = append(want, b0)
+				for k := 1; k <= l; k++ {
+					var bk [8]bfBit
+					for b := range bk {
+						bk[b] = xbit(t, 8*(k-1)+b)
+					}
+					want = append(want, bk)
+				}
+			}
+			m := &bfMachine{maxSteps: 20000}
+			heap := bfHeap{}
+			args := make([]any, len(f.Params))
+			for i := range args {
+				args[i] = bfUnknown{"parameter"}
+			}
+			args[xParam] = x
+			for _, o := range m.call(f, args, heap, 0) {
+				if o.fault != "" {
+					if o.panics {
+						bad = where + ": " + o.fault
+					} else {
+						undecided = where + ": " + o.fault
+					}
+					break
+				}
+				if len(o.results) != res.Len() || len(o.results) == 0 {
+					undecided = where + ": unexpected result arity"
+					break
+				}
+				if types.Identical(res.At(res.Len()-1).Type(), errT) {
+					if e, isE := o.results[len(o.results)-1].(bfErr); !isE || e.nonNil {
+						bad = where + ": the encoder can fail on this value"
+						break
+					}
+				}
+				sl, isSl := o.results[0].(bfSlice)
+				if !isSl {
+					undecided = where + ": the result is not a byte slice the domain follows"
+					break
+				}
+				rets++
+				if sl.hi-sl.lo != len(want) {
+					bad = fmt.Sprintf("%s: %d bytes are emitted, the encoding has %d", where, sl.hi-sl.lo, len(want))
+					break
+				}
+				for k := range want {
+					got := bfElem(o.heap, sl.obj, sl.lo+k)
+					for b := 0; b < 8 && bad == ""; b++ {
+						if got.b[b] != want[k][b] {
+							ws, gs := strings.Replace(bfBitString(want[k][b]), "of input byte", "of x, byte", 1), strings.Replace(bfBitString(got.b[b]), "of input byte", "of x, byte", 1)
+							bad = fmt.Sprintf("%s: bit %d of output byte %d is %s, the encoding defines %s", where, b, k, gs, ws)
+						}
+					}
+				}
+				if bad != "" {
+					break
+				}
+			}
+		}
+		switch {
+		case bad != "":
+			c.Bad("C12.encoded-bytes", key, f.Pos(), "%s", bad)
+		case undecided != "":
+			c.Unknown("C12.encoded-bytes", key, f.Pos(), "%s", undecided)
+		case rets == 0:
+			c.Bad("C12.encoded-bytes", key, f.Pos(), "no return reached")
+		default:
+			c.OK("C12.encoded-bytes", key, f.Pos(), "%d partition(s) followed, %d return(s): the defined bytes, bit for bit", len(cl.ts), rets)
+		}
+	}
 }
